@@ -1,9 +1,12 @@
 (* Properties_C13.v -- C13: block, complex and mixed-precision formulations solve the same
-   system.  Statements only; proofs: BlockProofs.v, BlockSpmv.v, ComplexProofs.v.
+   system.  Statements only; proofs: BlockProofs.v, BlockSpmv.v, ComplexProofs.v, MixedPrecision.v.
    The mixed-precision clause (float preconditioner under a double solver reaches 1e-8) is a
-   rounding statement: tested by tools/props/C13.py, not proved. *)
+   rounding statement: tested by tools/props/C13.py, not proved; what IS proved about mixed precision
+   (round 2b, end of file) is the exact-arithmetic part: the vector view is taken at the vector's Scalar,
+   the block adapter commutes with the float -> double conversion, and so the block / hybrid products of a
+   float block matrix with double vectors are the scalar products of the converted matrix. *)
 From Amgcl Require Import Scalar QcInst Vec Crs Kernels KernelsProofs MatOps Adapters AdaptersProofs BlockProofs ComplexProofs
-  BlockInst BlockSpmv.
+  BlockInst BlockSpmv MixedPrecision.
 Local Open Scope S_scope.
 
 Section Ring.
@@ -188,3 +191,62 @@ Example C13_block_spmv_nonvacuous :
                      (blk_embed QcS 2 s0) (as_rhs QcS 2 [s0; s0; s0; s0]))
   = spmv s1 A x s0 [s0; s0; s0; s0].
 Proof. cbv zeta. split; [reflexivity|]. split; [repeat constructor|]. vm_compute. reflexivity. Qed.
+
+(* ================================================================ round 2b: mixed precision x re-interpretation
+   (seeded change C13-2).  Two Scalars: matrix values in Sm (float), vectors in Sv (double), conversion
+   up : Sm -> Sv with up 0 = 0.  The models have ONE Scalar; these theorems say what that means for a
+   mixed-precision run: the view backend::reinterpret_as_rhs is BlockSpmv.as_rhs AT Sv (builtin.hpp: the rhs
+   type of the matrix block with its scalar REPLACED by the vector's scalar -- [as_rhs Sv b] has no argument
+   through which the matrix precision could enter), and the float block matrix enters the product through
+   the conversion of its entries.  Rounding is not modelled (exact arithmetic; tied on data where neither
+   precision rounds: tools/props/C13.py, group MK). *)
+
+(* the block adapter commutes with the conversion: it compares column indices only and fills the missing
+   entries of incomplete blocks with zeros *)
+Theorem C13_block_adapter_commutes_with_precision (Sm Sv : Scalar) (up : Sm -> Sv) (up0 : up s0 = s0) (b : nat) (A : crs Sm) :
+  to_gcrs (block_adapter b (crs_view (up_crs Sm Sv up A)))
+  = up_gcrs Sm Sv up (to_gcrs (block_adapter b (crs_view A))).
+Proof. exact (block_adapter_map Sm Sv up up0 b A). Qed.
+Print Assumptions C13_block_adapter_commutes_with_precision.
+
+(* the float block matrix, entries promoted = the block matrix of the promoted scalar matrix *)
+Theorem C13_mixed_precision_block_matrix (Sm Sv : Scalar) (up : Sm -> Sv) (up0 : up s0 = s0) (b : nat) (A : crs Sm) :
+  promoted_block_matrix Sm Sv up b A = block_matrix Sv b (up_crs Sm Sv up A).
+Proof. exact (promoted_block_matrix_is_block_matrix Sm Sv up up0 b A). Qed.
+Print Assumptions C13_mixed_precision_block_matrix.
+
+(* C13_hybrid_spmv_is_scalar at mixed precision: builtin_hybrid<float block> matrix, Sv scalar vectors *)
+Theorem C13_mixed_precision_view (Sm Sv : Scalar) (up : Sm -> Sv) (up0 : up s0 = s0) (b : nat) (Srt : Sring Sv) (Hb : 0 < b)
+  (Seqb : seqb_spec Sv) (alpha beta : Sv) (A : crs Sm) (x y : vec Sv) :
+  nrows A mod b = 0 -> Forall (fun r => sorted_strict r = true) (rows A) -> length y = nrows A ->
+  hybrid_spmv Sv b alpha (promoted_block_matrix Sm Sv up b A) x beta y = spmv alpha (up_crs Sm Sv up A) x beta y.
+Proof. exact (mixed_hybrid_spmv_is_scalar Sm Sv up up0 b Srt Hb Seqb alpha beta A x y). Qed.
+Print Assumptions C13_mixed_precision_view.
+
+Theorem C13_mixed_precision_hybrid_residual (Sm Sv : Scalar) (up : Sm -> Sv) (up0 : up s0 = s0) (b : nat) (Srt : Sring Sv) (Hb : 0 < b)
+  (A : crs Sm) (f x r : vec Sv) :
+  nrows A mod b = 0 -> Forall (fun r => sorted_strict r = true) (rows A) ->
+  length f = nrows A -> length r = nrows A ->
+  hybrid_residual Sv b f (promoted_block_matrix Sm Sv up b A) x r = residual f (up_crs Sm Sv up A) x r.
+Proof. exact (mixed_hybrid_residual_is_scalar Sm Sv up up0 b Srt Hb A f x r). Qed.
+Print Assumptions C13_mixed_precision_hybrid_residual.
+
+(* C13_block_spmv at mixed precision: crs<float block> and vectors re-interpreted by the caller
+   (make_block_solver, relaxation::as_block) *)
+Theorem C13_mixed_precision_block_spmv (Sm Sv : Scalar) (up : Sm -> Sv) (up0 : up s0 = s0) (b : nat) (Srt : Sring Sv) (Hb : 0 < b)
+  (Seqb : seqb_spec Sv) (alpha beta : Sv) (A : crs Sm) (x y : vec Sv) :
+  nrows A mod b = 0 -> Forall (fun r => sorted_strict r = true) (rows A) -> length y = nrows A ->
+  spmv (S:=BlockS Sv b) (blk_embed Sv b alpha) (promoted_block_matrix Sm Sv up b A) (as_rhs Sv b x)
+       (blk_embed Sv b beta) (as_rhs Sv b y)
+  = as_rhs Sv b (spmv alpha (up_crs Sm Sv up A) x beta y).
+Proof. exact (mixed_block_spmv Sm Sv up up0 b Srt Hb Seqb alpha beta A x y). Qed.
+Print Assumptions C13_mixed_precision_block_spmv.
+
+(* closed instance / non-vacuity: vectors over the exact rationals, matrix values in any Scalar that embeds
+   into them -- here the rationals themselves with the identity conversion *)
+Theorem C13_mixed_precision_view_Qc (b : nat) (Hb : 0 < b) (alpha beta : QcS) (A : crs QcS) (x y : vec QcS) :
+  nrows A mod b = 0 -> Forall (fun r => sorted_strict r = true) (rows A) -> length y = nrows A ->
+  hybrid_spmv QcS b alpha (promoted_block_matrix QcS QcS (fun v => v) b A) x beta y
+  = spmv alpha (up_crs QcS QcS (fun v => v) A) x beta y.
+Proof. exact (C13_mixed_precision_view QcS QcS (fun v => v) eq_refl b QcS_ring Hb QcS_eqb alpha beta A x y). Qed.
+Print Assumptions C13_mixed_precision_view_Qc.
